@@ -988,6 +988,8 @@ class InterpExpr:
                 return base.args[0] if attr == 'code' and base.args else (base.args[1] if len(base.args) > 1 else None)
             if attr == 'args':
                 return tuple(base.args)
+        if isinstance(base, FuncV) and attr in getattr(base.fi, 'fattrs', {}):
+            return base.fi.fattrs[attr]
         if isinstance(base, Builtin) and base.name.startswith('ext:'):
             key = f'{base.name[4:]}.{attr}'
             if key in self.reg.externals:
@@ -1164,6 +1166,9 @@ class InterpExpr:
         if isinstance(base, SV) and isinstance(base.ty, TTuple):
             tup = self.wrap(base.t, base.ty)
             return self.getitem(tup, key, line)
+        if isinstance(base, ClassV) and base.name in self.ct.classes and self.ts.is_enum_class(base.name) \
+                and self.ts.enum_info(base.name)['is_enum']:
+            return self.enum_by_name(base.name, key, line)
         h = self.reg.getitem_hook(self, base, key, line)
         if h is not NotImplemented:
             return h
@@ -1639,6 +1644,10 @@ class InterpExpr:
             return list(v)
         if isinstance(v, str):
             return list(v)
+        if isinstance(v, ClassV) and v.name in self.ct.classes and self.ts.is_enum_class(v.name) \
+                and self.ts.enum_info(v.name)['is_enum']:
+            # iterating an Enum class yields its members in definition order
+            return [EnumMember(v.name, n, code, val) for n, code, val in self.ts.enum_info(v.name)['members']]
         return None
 
 
@@ -1972,6 +1981,8 @@ class InterpStmt:
             return True
         t = self.ev(handler_type, fr)
         names = [x.name for x in t] if isinstance(t, tuple) else [t.name]
+        # exception classes of external modules (`except re.error`) are named by their dotted path
+        names = [nme[4:] if nme.startswith('ext:') else nme for nme in names]
         for nme in names:
             if self.exc_isinstance(exc.cls, nme):
                 return True
@@ -2072,6 +2083,11 @@ class InterpStmt:
         if isinstance(base, SV) and isinstance(base.ty, TOpt):
             self.partial(self.neg(self.opt_is_none(base)), 'AttributeError', line)
             base = self.narrow_opt(base)
+        if isinstance(base, FuncV) and getattr(base.fi, 'closure', None) is not None:
+            # attribute of a nested function object (`onwait.delay = 0.5`): kept on the function value of this path
+            base.fi.fattrs = dict(getattr(base.fi, 'fattrs', {}))
+            base.fi.fattrs[attr] = val
+            return
         if not isinstance(base, ObjV):
             if base is None:
                 self.partial(False, 'AttributeError', line)
@@ -2294,6 +2310,24 @@ class InterpCall:
         if h is not NotImplemented:
             return h
         raise Unsupported(f'constructor of external class {cname} at line {line}')
+
+    def enum_by_name(self, cname, key, line):
+        """EnumClass[name]: the member of that name, KeyError for any other key (EnumMeta.__getitem__)"""
+        info = self.ts.enum_info(cname)
+        if isinstance(key, str):
+            for n, code, val in info['members']:
+                if n == key:
+                    return EnumMember(cname, n, code, val)
+            self.partial(False, 'KeyError', line)
+        if not (isinstance(key, SV) and key.ty == STR):
+            # non-string keys are never member names
+            self.partial(False, 'KeyError', line)
+            raise Unsupported('Enum class subscript with a non-string key in spec mode')
+        self.partial(z3.Or([key.t == self.lift(n) for n, _, _ in info['members']]), 'KeyError', line)
+        t = None
+        for n, code, val in reversed(info['members']):
+            t = z3.IntVal(code) if t is None else z3.If(key.t == self.lift(n), code, t)
+        return SV(t, TEnum(cname))
 
     def enum_by_value(self, cname, v, line):
         info = self.ts.enum_info(cname)
